@@ -493,7 +493,7 @@ def gen_recorder(rng):
 
 def gen_webvis(rng):
     bt, bs = gen_base_extras(rng)
-    host = rng.choice(['0.0.0.0', '192.168.1.13', 'localhost', '*', '0', ''])
+    host = rng.choice(['0.0.0.0', '192.168.1.13', 'localhost', '*', '0', '', 'Vis-Host.Lan'])
     port = rng.choice([None, 8000, 6000, 80])
     src = gen_zmq_side(rng)
     url = 'http://' + host + ('' if port is None else ':%d' % port) + rng.choice(['', '', '/'])
@@ -574,7 +574,7 @@ def gen_mqtt(rng):
 
 def gen_rest(rng):
     bt, bs = gen_base_extras(rng)
-    host = rng.choice(['0.0.0.0', 'localhost', ''])
+    host = rng.choice(['0.0.0.0', 'localhost', '', 'Rest-GW01.Plant.local', 'EDGE7', '[::1]' if False else 'api.example.com'])   # host names are kept as written
     port = rng.choice([None, 8000, 8080])
     base = rng.choice([None, None, 'endpoint', 'api/v1', 'endpoint/'])
     eps, seen, flags = [], set(), []
